@@ -41,6 +41,9 @@ func (m *Message) SkipString(ctx context.Context) error {
 		if err != nil {
 			return err
 		}
+		if length < 0 {
+			return fmt.Errorf("invalid string length prefix: %d", length)
+		}
 		return m.discard(ctx, int(length))
 	}
 	for {
